@@ -333,11 +333,10 @@ def run(ctx):
           ("MC_KeysetHandle_table_quick", "M:AddKeyWithOpts decision table, every option list <= 2"),
           ("MC_KeysetHandle_htable_quick", "M:handle API table, keysets <= 2 keys over ID=1..2")]
     if ctx.thorough:
-        mc = [("MC_KeysetHandle_opts", "M:AddKeyWithOpts (40 option lists, no deviation) x C11 ops, ID=1..3, <=3 entries, <=1 handle"),
+        mc = [("MC_KeysetHandle_mix", "M:2 kinds of material x annotations, ID=1..2, <=2 entries, <=2 handles"),
+              ("MC_KeysetHandle_opts", "M:AddKeyWithOpts (40 option lists, no deviation) x C11 ops, ID=1..3, <=3 entries, <=1 handle"),
               ("MC_KeysetHandle_dev_rest3", "M:AddKeyWithOpts (85 option lists, incl. the deviation) x C11 ops, ID=1..3, <=3 entries, <=1 handle"),
-              ("MC_KeysetHandle_mix", "M:2 kinds of material x annotations, ID=1..2, <=2 entries, <=2 handles"),
               ("MC_KeysetHandle_mix1", "M:3 kinds of material x 3 annotation values, ID=1..2, <=2 entries, <=1 handle"),
-              ("MC_KeysetHandle_two2", "M:two managers (isolation), ID=1..2, <=2 entries"),
               ("MC_KeysetHandle_table", "M:AddKeyWithOpts decision table, every option list <= 3"),
               ("MC_KeysetHandle_htable", "M:handle API table, keysets <= 2 keys over ID=1..3, 3 kinds of material")] + mc[:3]
     skip_m = bool(os.environ.get("VERIF_X04_SKIP_M")) and bool(os.environ.get("VERIF_REPO"))
